@@ -6,6 +6,10 @@ use exmex::prelude::*;
 use exmex::{DeepEx, FlatExVal, Val};
 use serde_json::json;
 
+thread_local! {
+    static AGREE: std::cell::RefCell<Option<(u64, u64)>> = const { std::cell::RefCell::new(None) };
+}
+
 fn text(n: usize, op: &str) -> String {
     let mut s = String::new();
     for i in 0..n {
@@ -30,6 +34,12 @@ fn run_f64(s: &str, n: usize, act: &str) -> Result<(), String> {
         "deep_to_flat" => { let d = DeepEx::<f64>::parse(s).map_err(e)?; FlatEx::from_deepex(d).map_err(e)?.eval(&vals).map_err(e)?; }
         "roundtrip" => { let d = FlatEx::<f64>::parse(s).map_err(e)?.to_deepex().map_err(e)?; FlatEx::from_deepex(d).map_err(e)?.eval(&vals).map_err(e)?; }
         "partial" => { FlatEx::<f64>::parse(s).map_err(e)?.partial(0).map_err(e)?.eval(&vals).map_err(e)?; }
+        // the flat and the deep form of the same text, values recorded bit for bit (judged by TLC)
+        "agree" => {
+            let a = FlatEx::<f64>::parse(s).map_err(e)?.eval(&vals).map_err(e)?;
+            let b = DeepEx::<f64>::parse(s).map_err(e)?.eval(&vals).map_err(e)?;
+            AGREE.with(|c| *c.borrow_mut() = Some((a.to_bits(), b.to_bits())));
+        }
         "deep_partial" => { DeepEx::<f64>::parse(s).map_err(e)?.partial(0).map_err(e)?.eval(&vals).map_err(e)?; }
         _ => return Err("unknown act".into()),
     }
@@ -61,6 +71,12 @@ pub fn main(args: &[String]) -> i32 {
         Ok(Err(m)) => if m == "unknown act" { "script".to_string() } else { "err".to_string() },
         Err(_) => "panic".to_string(),
     };
-    println!("{}", json!({"n": n, "op": op, "act": act, "ty": ty, "tokens": 2 * n - 1, "outcome": outcome}));
+    let mut rec = json!({"n": n, "op": op, "act": act, "ty": ty, "tokens": 2 * n - 1, "outcome": outcome});
+    if let Some((a, b)) = AGREE.with(|c| *c.borrow()) {
+        let split = |v: u64| (((v >> 32) & 0x7fff_ffff) as u32, (v & 0x7fff_ffff) as u32, (v >> 63) as u32, ((v >> 31) & 1) as u32);
+        rec["flat"] = json!(split(a));
+        rec["deep"] = json!(split(b));
+    }
+    println!("{rec}");
     0
 }
